@@ -24,6 +24,9 @@ Inductive c17_case :=
                                              (* per key: Get(latest); if present Update at that revision; then Create *)
         (watch_extra : N)                                     (* events delivered beyond those of the writes *)
 | KTtlChoice (prefix : bytes) (events_ttl : N) (k : bytes) (ttls : list N)   (* TTL arguments the engine saw for Create k *)
+| KTtlWrite (prefix : bytes) (events_ttl : N) (op : N) (lease : N) (k : bytes) (ttls : list N)
+             (* op 0 = Create, 1 = Update, 2 = Delete of k with the request's Lease: TTL arguments of every operation of
+                every engine batch of the request *)
 | KEngineTtl (e : eng) (prefix : bytes) (ttl_ms : N) (evs : list tev)
              (fin : list (bytes * option (N * bytes) * wres)).   (* after the last dump, per key: Get(latest), then Create *)
 
@@ -114,6 +117,9 @@ Definition c17_check (c : c17_case) : bool :=
          end
       && (extra =? 0)
   | KTtlChoice prefix ettl k ttls => forallb (N.eqb (create_ttl ettl prefix k)) ttls && negb (is_nil ttls)
+  | KTtlWrite prefix ettl op lease k ttls =>
+      (* the lease of a request plays no part: only Create hands a TTL to the engine, by the key *)
+      forallb (N.eqb (if op =? 0 then create_ttl ettl prefix k else 0)) ttls && negb (is_nil ttls)
   | KEngineTtl e prefix ttl_ms evs fin =>
       match ttl_run e prefix ttl_ms (mkTS [] []) evs with
       | Some V => ttl_final_ok V 1000000 fin
@@ -248,6 +254,9 @@ Definition c17_oracle (c : c17_case) : option N :=
       if forallb (N.eqb 0) ttls then None
       else if is_event_key prefix k then None
       else Some 0
+  | KTtlWrite prefix ettl op lease k ttls =>
+      (* time-based expiry is asked for only by the Create of an Event key, and never before the events TTL *)
+      if forallb (fun t => (t =? 0) || ((op =? 0) && is_event_key prefix k && (ettl <=? t))) ttls then None else Some 0
   | KEngineTtl e prefix ttl_ms evs fin =>
       (* whatever expired: a key that reads absent can be created again, one that reads present cannot *)
       let fin_ok := forallb (fun p => let '(_, got, res) := p in
